@@ -5,7 +5,7 @@
      - the extracted trace predicates c01_step .. c15_step evaluated on the
        implementation's trace                                      (violation search).
    usage: driver <obs-file> --mask f1,f2,.. --props p1,p2,.. [--dump]
-   mask fields: out keys queue qset vals size freq born stats
+   mask fields: out keys nkeys queue qset vals size freq born stats
    Output: one line per case  "V <id> ok|MISMATCH ..|PANIC ..|SKIP .."  (correspondence), lines "F <id> <prop> <op index>"
    for every trace predicate that fails on the implementation's trace, and STAT lines. *)
 open Model
@@ -14,6 +14,15 @@ let rec pos_of_int i = if i = 1 then XH else if i land 1 = 0 then XO (pos_of_int
 let n_of_int i = if i <= 0 then N0 else Npos (pos_of_int i)
 let rec int_of_pos = function XH -> 1 | XO p -> 2 * int_of_pos p | XI p -> 2 * int_of_pos p + 1
 let int_of_n = function N0 -> 0 | Npos p -> int_of_pos p
+
+(* decimal numerals of any length (extreme frequency weights such as 10^308) *)
+let pos_of_decimal (s : string) : positive =
+  let ten = Npos (pos_of_int 10) in
+  let acc = ref N0 in
+  String.iter (fun ch ->
+      if ch < '0' || ch > '9' then failwith ("number " ^ s);
+      acc := N.add (N.mul !acc ten) (n_of_int (Char.code ch - 48))) s;
+  match !acc with Npos p -> p | N0 -> failwith "zero weight"
 
 let split_on c s = List.filter (fun x -> x <> "") (String.split_on_char c s)
 let opt_n s = if s = "-" then None else Some (n_of_int (int_of_string s))
@@ -77,6 +86,7 @@ let compare_states (m : isnap) (i : isnap) : string option =
   let keys s = List.map fst s.store in
   let proj f s = List.map (fun (k, e) -> (k, f e)) s.store in
   if has "keys" && keys m <> keys i then Some "keys"
+  else if has "nkeys" && List.length m.store <> List.length i.store then Some "nkeys"
   else if has "queue" && m.queue <> i.queue then Some "queue"
   else if has "qset" && List.sort compare m.queue <> List.sort compare i.queue then Some "qset"
   else if has "vals" && keys m = keys i && proj (fun (v, _, _, _) -> v) m <> proj (fun (v, _, _, _) -> v) i then Some "vals"
@@ -147,7 +157,7 @@ let () =
          cur_id := id;
          let fw = match fwn, fwd with
            | "-", _ | _, "-" -> None
-           | n, d -> Some (pos_of_int (int_of_string n), pos_of_int (int_of_string d)) in
+           | n, d -> Some (pos_of_decimal n, pos_of_decimal d) in
          cur_cfg := Some { fl = fl_of fl; pol = pol_of pol; limit = opt_n lim; ttl = opt_n ttl; maxmem = opt_n mm; fw };
          pre := { hits = 0; misses = 0; queue = []; store = [] };
          trace := []; verdict := None; opidx := 0; skip := false; nontrivial := false
